@@ -15,6 +15,7 @@ type c02Case struct {
 	Paths []*PExpr `json:"paths"`
 	Set   string   `json:"set"` // graph family: g2, g3, suite
 	Paren bool     `json:"paren,omitempty"`
+	Split bool     `json:"split,omitempty"` // every node described by two @graph entries sharing its @id
 	NS    string   `json:"ns,omitempty"` // the namespace bound to prefix ex (default http://ex.org/): profile and documents are rewritten to it
 }
 
@@ -291,7 +292,7 @@ func c02Docs(set string) []c02Doc {
 func init() {
 	Register(Meta{
 		ID: "C02", Level: "exploration",
-		Rule:        "every path AST with <=L leaves over {ex.p, ex.q, ex.p^, ex.q^, @type} with n-ary and nested sequences/alternatives, canonical layout (+ a redundantly parenthesised variant), (quick: <=2 leaves over the full alphabet and 3 leaves over {p,q,p^}) on every graph with <=E edges over 3 nodes x 2 predicates x 2 literals up to node renaming, plus a suite of collision graphs (cycle, diamond, self-loop, literal mid-path, shared values, chain of 4, complete graph, two routes); every node is a focus node; the <=2-leaf paths are repeated on the suite with the prefix bound to 5 other namespace shapes (ending in #, _, :, = or nothing). Observers: `in:[__none__]` (set of reached values) and `maxCount:0` (number of distinct values). Oracle = set-valued denotation by structural recursion. Non-trivial = (path,document) pairs where some focus node has a non-empty denotation; distinct by path text x document.",
+		Rule:        "every path AST with <=L leaves over {ex.p, ex.q, ex.p^, ex.q^, @type} with n-ary and nested sequences/alternatives, canonical layout (+ a redundantly parenthesised variant), (quick: <=2 leaves over the full alphabet and 3 leaves over {p,q,p^}) on every graph with <=E edges over 3 nodes x 2 predicates x 2 literals up to node renaming, plus a suite of collision graphs (cycle, diamond, self-loop, literal mid-path, shared values, chain of 4, complete graph, two routes); every node is a focus node; the <=2-leaf paths are repeated on the suite with every node described by two @graph entries that share its @id, and with the prefix bound to 5 other namespace shapes (ending in #, _, :, = or nothing). Observers: `in:[__none__]` (set of reached values) and `maxCount:0` (number of distinct values). Oracle = set-valued denotation by structural recursion. Non-trivial = (path,document) pairs where some focus node has a non-empty denotation; distinct by path text x document.",
 		Assumptions: []string{"values are IRIs or plain string literals (typed/language-tagged literals are outside the alphabet)"},
 	}, c02Gen, c02Run)
 }
@@ -325,6 +326,13 @@ func c02Gen(tier string, emit func(c02Case)) {
 		var upto2 []*PExpr
 		for n := 1; n <= 2; n++ {
 			upto2 = append(upto2, PathASTs(n, c02Leaves)...)
+		}
+		for i := 0; i < len(upto2); i += 2 * c02Pack {
+			j := i + 2*c02Pack
+			if j > len(upto2) {
+				j = len(upto2)
+			}
+			emit(c02Case{Paths: upto2[i:j], Set: "suite", Split: true})
 		}
 		for _, ns := range []string{"http://ex.org/ns#", "http://ex.org/RO_", "urn:ex:", "http://ex.org/ns", "http://ex.org/v?x="} {
 			for i := 0; i < len(upto2); i += 2 * c02Pack {
@@ -439,7 +447,11 @@ func c02Run(c *Ctx, cs c02Case) {
 		return
 	}
 	for _, doc := range c02Docs(cs.Set) {
-		res := ValidateCompiled(q, toNS(doc.data))
+		dataText := doc.data
+		if cs.Split {
+			dataText = doc.g.SplitJSONLD()
+		}
+		res := ValidateCompiled(q, toNS(dataText))
 		c.Eval(1)
 		if res.Panic != nil || res.Err != nil {
 			c.Violate("C02 validation failed: "+firstLine(res.ErrString()), prof+"\n"+toNS(doc.data), nil)
@@ -504,10 +516,13 @@ func c02Run(c *Ctx, cs c02Case) {
 					o = &obs{vals: map[string]bool{}}
 				}
 				if !setEq(o.vals, expVals) || o.count != expCount {
-					one := c02Case{Paths: []*PExpr{p}, Set: cs.Set, Paren: cs.Paren, NS: cs.NS}
+					one := c02Case{Paths: []*PExpr{p}, Set: cs.Set, Paren: cs.Paren, NS: cs.NS, Split: cs.Split}
 					sig := "C02 denotation mismatch"
 					if cs.NS != "" {
 						sig = "C02 denotation mismatch under another namespace shape"
+					}
+					if cs.Split {
+						sig = "C02 denotation mismatch when nodes are described by two entries"
 					}
 					switch {
 					case !setEq(o.vals, expVals):
